@@ -595,6 +595,38 @@ func init() {
 			}
 		}
 		rep.Extra["cross_type_identifiers"] = cross
+		// RSA moduli the key library does NOT take (below 2048, above 8192 bits), as identifiers: well-formed PKCS#1 under the
+		// RSA multicodec. Parsing them is fine; extracting a key gives a key or an error - not neither
+		for _, bits := range []int{512, 1024, 1536, 2040, 8200, 16384} {
+			nb := make([]byte, bits/8)
+			if _, err := rand.Read(nb); err != nil {
+				return err
+			}
+			nb[0] |= 0x80
+			nb[len(nb)-1] |= 1
+			der := x509.MarshalPKCS1PublicKey(&rsa.PublicKey{N: new(big.Int).SetBytes(nb), E: 65537})
+			text, _ := mbase.Encode(mbase.Base58BTC, append(varint.ToUvarint(algCodes["rsa"]), der...))
+			text = "did:key:" + text
+			rep.Evaluations++
+			o := didReal(text)
+			cs := map[string]any{"rsa_bits": bits, "identifier_chars": len(text)}
+			switch {
+			case o.panicAt != "":
+				rep.violation(cs, "a key or an error", o.panicAt, "an RSA identifier of unusual size crashes")
+			case o.parsed && o.pub == nil && o.pubErr == "":
+				rep.violation(cs, "a key or an error", "neither (nil key, nil error)", "key extraction from a parsed RSA identifier returns neither a key nor an error")
+			}
+			func() {
+				defer func() {
+					if r := recover(); r != nil {
+						rep.violation(cs, "a key or an error", fmt.Sprintf("panic: %v", r), "did.ToPubKey crashes on an RSA identifier of unusual size")
+					}
+				}()
+				if pk, err := did.ToPubKey(text); pk == nil && err == nil {
+					rep.violation(cs, "a key or an error", "neither (nil key, nil error)", "did.ToPubKey returns neither a key nor an error")
+				}
+			}()
+		}
 		rep.Extra["rsa_modulus_sizes"] = rsaSizes
 		rep.Extra["injectivity_pairs"] = pairs
 		return nil
